@@ -50,9 +50,24 @@ def collinear_run(xs, ys):
 class P(Prop):
     id = "C16"
     design_ref = "DESIGN.md section 5, C16"
-    theorems = []
+    M = "TracklibVerif.Props.C16"
+    theorems = [
+        (M, "TV.C16.dp_sublist", "T1: Douglas-Peucker's result is a sub-sequence (same observations, same order) of the input; any scalar type (the Float model included), any tolerance"),
+        (M, "TV.C16.dp_ends", "T2: the result starts with the first and ends with the last input observation, and keeps >= 2 fixes of a track of >= 2 fixes; closed loops, duplicates included; any scalar type"),
+        (M, "TV.C16.dp_total_of_self_distance", "T3 (scalar-independent): with eps > 0 the recursion terminates on every track provided distance_to_segment(A; A, B) is never > 0 (the odd split L[0:imax]/L[imax:n] always yields two strictly shorter parts)"),
+        (M, "TV.C16.dp_total", "T3: over an ordered field with a correct sqrt, douglas_peucker is defined for every track (closed loops included) and every eps > 0"),
+        (M, "TV.C16.dist_seg_spec", "T4: distance_to_segment (projection + clamp to the segment's box, l == 0 branch) is >= 0 and its square is the minimum over t in [0,1] of |P - (A + t(B-A))|^2"),
+        (M, "TV.C16.dp_tolerance", "T5: every input fix is within eps (true point-segment distance, squared form) of a segment between two consecutive vertices of the OUTPUT polyline"),
+        (M, "TV.C16.dp_correct", "T1+T2+T3+T5 in one statement: for every track of >= 2 fixes and eps > 0 a result exists, is a sublist keeping both ends, and is within tolerance"),
+        (M, "TV.C16.vw_sublist_ends", "T6: Visvalingam (areas below ARGMIN's 1e300 sentinel, any tolerance, any scalar type) returns a sublist keeping the first and last observation and its loop stops by itself within len(track) passes"),
+        (M, "TV.C16.single_fix", "a one-fix track is returned unchanged by both algorithms"),
+    ]
     partial = []
-    open_statements = []
+    open_statements = [
+        "IEEE rounding: T3 (field form), T4 and T5 are over a linearly ordered field with an exact sqrt; on floats the tolerance is sampled by the transfer "
+        "check with slack 1e-9 (T1, T2, T6 and the scalar-independent T3 do apply to the Float model as they assume nothing about the scalar)",
+        "Visvalingam with a triangle area >= 1e300 or NaN (coordinates ~1e150, not ENU tracks): ARGMIN falls back to index 0 and the first fix is removed; excluded by T6's hypothesis",
+    ]
     modelled = ("util/geometry.py distance_to_segment (l == 0 branch, normalised scalar product, clamp to the segment's box), "
                 "triangle_area, aire_visval; algo/simplification.py douglas_peucker (n <= 2 base case, first farthest fix by strict >, "
                 "dmax < eps, split L[0:imax] / L[imax:n], recursion, concatenation) and visvalingam (eps **= 2, '@aire' column with NaN at "
@@ -164,6 +179,8 @@ class P(Prop):
                 v[4], v[5] = v[2], v[3]                    # degenerate segment
             if rng.random() < 0.15:
                 v[rng.choice([4, 5])] = v[rng.choice([2, 3])]
+            if rng.random() < 0.15:
+                v[0], v[1] = v[2], v[3]                    # the point is the chord's first end (termination hypothesis of T3)
             out.append({"kind": rng.choice(["dist", "dist", "area"]), "p": v})
         return out
 
@@ -272,6 +289,9 @@ class P(Prop):
             want = math.sqrt(seg_d2((p[0], p[1]), (p[2], p[3]), (p[4], p[5])))
             if not close(out["v"], want, 1e-9, 1e-9):
                 return "distance_to_segment%s = %r, the distance to the closed segment is %r" % (tuple(case["p"]), out["v"], want)
+            if (p[0], p[1]) == (p[2], p[3]) and out["v"] != 0:
+                # hypothesis of dp_total_of_self_distance on the implementation's floats: needed for termination
+                return "distance_to_segment%s = %r: a chord's first end must be at distance exactly 0 from it" % (tuple(case["p"]), out["v"])
             return None
         if k == "area":
             if "err" in out:
